@@ -115,11 +115,21 @@ func (r *RibEntry) pruneIfEmpty() {
 	}
 }
 
+// updateNexthopsEnc recomputes the FIB nexthops of this entry and of every
+// entry below it, and installs all of them in the FIB in one step.
 func (r *RibEntry) updateNexthopsEnc() {
+	updates := make([]FibNextHopsUpdate, 0)
+	r.collectNexthopsEnc(&updates)
+	FibStrategyTable.ReplaceNextHopsEnc(updates)
+}
+
+// collectNexthopsEnc appends the "flattened" nexthops of this entry and of
+// every entry below it to updates.
+func (r *RibEntry) collectNexthopsEnc(updates *[]FibNextHopsUpdate) {
 	// A node that was only created as a path filler has no name and owns no
 	// FIB entry (a nil name would address the root entry of the FIB).
 	if r.Name != nil {
-		FibStrategyTable.ClearNextHopsEnc(r.Name)
+		update := FibNextHopsUpdate{Name: r.Name}
 
 		// Only a prefix with routes of its own has a FIB entry; names below
 		// a prefix without routes are covered by longest-prefix match.
@@ -155,14 +165,15 @@ func (r *RibEntry) updateNexthopsEnc() {
 
 			// Add "flattened" set of nexthops
 			for nexthop, cost := range minCostRoutes {
-				FibStrategyTable.InsertNextHopEnc(r.Name, nexthop, cost)
+				update.NextHops = append(update.NextHops, FibNextHopEntry{Nexthop: nexthop, Cost: cost})
 			}
 		}
+		*updates = append(*updates, update)
 	}
 
 	// Trigger update for all children for inheritance
 	for child := range r.children {
-		child.updateNexthopsEnc()
+		child.collectNexthopsEnc(updates)
 	}
 }
 
@@ -260,19 +271,18 @@ func (r *RibTable) CleanUpFace(faceId uint64) {
 	r.mutex.Lock()
 	defer r.mutex.Unlock()
 
-	r.RibEntry.cleanUpFace(faceId)
+	// Remove the routes everywhere first, then install all recomputed
+	// nexthops in the FIB in one step, then drop the emptied nodes.
+	r.RibEntry.removeFaceRoutes(faceId)
+	r.RibEntry.updateNexthopsEnc()
+	r.RibEntry.pruneEmptyBelow()
 }
 
-// cleanUpFace removes the specified face from this entry and all entries below it.
+// removeFaceRoutes removes every route of the face from this entry and all entries below it.
 // The caller must hold the RIB mutex.
-func (r *RibEntry) cleanUpFace(faceId uint64) {
-	// Recursively clean children
+func (r *RibEntry) removeFaceRoutes(faceId uint64) {
 	for child := range r.children {
-		child.cleanUpFace(faceId)
-	}
-
-	if r.Name == nil {
-		return
+		child.removeFaceRoutes(faceId)
 	}
 
 	// Remove every route of the face (there is one per origin)
@@ -285,8 +295,16 @@ func (r *RibEntry) cleanUpFace(faceId uint64) {
 		}
 	}
 	r.routes = kept
-	r.updateNexthopsEnc()
-	r.pruneIfEmpty()
+}
+
+// pruneEmptyBelow removes, bottom-up, every entry below this one that has no routes and no children.
+func (r *RibEntry) pruneEmptyBelow() {
+	for child := range r.children {
+		child.pruneEmptyBelow()
+		if len(child.children) == 0 && len(child.routes) == 0 {
+			delete(r.children, child)
+		}
+	}
 }
 
 func (r *RibEntry) HasCaptureRoute() bool {
